@@ -286,13 +286,22 @@ func (c *conn) onRequest(frame []byte) (kill bool) {
 	c.n.mu.Unlock()
 	c.n.counts[a.Kind].Add(1)
 	if a.Kind == KillBefore {
+		if !c.n.KeepFrames {
+			r.body = nil
+		}
 		return true
 	}
 	// acks=0 produce has no response
 	if r.Key == 0 {
 		if pr, ok := r.Decode().(*kmsg.ProduceRequest); ok && pr.Acks == 0 {
+			if !c.n.KeepFrames {
+				r.body = nil
+			}
 			return false
 		}
+	}
+	if !c.n.KeepFrames {
+		r.body = nil // the log keeps headers only; bodies would pin every produce payload in memory
 	}
 	c.pmu.Lock()
 	c.pending = append(c.pending, ev)
